@@ -179,7 +179,7 @@ func init() {
 	}
 	props["X03"] = func(rc *RunCtx) int {
 		rep := NewReport("X03", rc.Tier, rc.Seed, "model_checking")
-		rep.Rule = "LibLaws spec: //bits.mask and //bits.set over subsets of 0..5 and numbers 0..70, //dict and //tuple over all tuples of three names and four values, //rel.union over all sets of six collections; TLC checks that the definitions are inverse and emits every input with its expected output, which the real function must return."
+		rep.Rule = "LibLaws spec: //bits.mask and //bits.set over subsets of 0..5 and numbers 0..70, //dict and //tuple over all tuples of three names and four values, //rel.union over all sets of six collections, //seq.concat over all arrays of up to three zero-based arrays / strings (empty members included), //str.upper and //str.lower over all strings of up to two characters from the boundary alphabet A Z a z 0 @ [ ` {; TLC checks that the definitions are inverse (idempotent, associative) and emits every input with its expected output, which the real function must return."
 		rep.Exhaust = true
 		runTLCToPool(rep, rc, []*TLCRun{{Module: "LibLaws", Cfg: "LibLaws.cfg"}}, &Pool{Handler: "liblaws"})
 		return rep.Finish()
